@@ -141,7 +141,7 @@ def run(tier, seed):
 def laws(chk, tier):
     """whitespace and separator insensitivity on the real code, through evaluation"""
     rng = chk.rng
-    base = ['=1+2*3', '=SUM(A1:B2,3)', '=IF(A1>1,"a","b")', '=A1&"x"&B2', '=ROUND(A1/3,2)', '=(A1+B2)*2', '=MAX(A1,B2,7)', '=LEFT("hello",2)',
+    base = ['=SUM(1,2,3)', '=MAX(1,5,2)', '=SUM(A1,2,3.5,4)', '=IF(A1>0,1,2)+SUM(1,2)', '=1+2*3', '=SUM(A1:B2,3)', '=IF(A1>1,"a","b")', '=A1&"x"&B2', '=ROUND(A1/3,2)', '=(A1+B2)*2', '=MAX(A1,B2,7)', '=LEFT("hello",2)',
             '=IFERROR(A1/0,5)', '=-A1+3', '=A1%', '=COUNT(A1:B2,1)', '=MID("abcdef",2,3)', '=DATE(2024,2,29)', '=VLOOKUP(1,A1:B2,2,FALSE)',
             '=MIN(A1:A2;B1:B2)', '=AND(A1>0,B2>0)', '=IFS(A1>5,1,TRUE,2)', '=1+2)', '=1+', '=SUM(1,2))', '=SUM(1,,2)', '=IF(1,2,3,4)', '=LEFT()']
     values = {(0, 0): 1, (1, 0): 2, (0, 1): 3, (1, 1): 4}
@@ -161,6 +161,8 @@ def laws(chk, tier):
             variants.append(gramgen.render(rng, [(None, t) for t in texts], ws=' '))
         swapped = ''.join(( ';' if t == ',' else ',' if t == ';' else t) for t in texts)
         variants.append(swapped)
+        for _ in range(rounds):      # both separators mixed in one formula
+            variants.append(''.join((rng.choice(',;') if t in (',', ';') else t) for t in texts))
         outs = realcode.eval_formulas(variants, values)
         for v, o in zip(variants, outs):
             chk.count('law:whitespace/separator')
